@@ -3,66 +3,48 @@
 #include "zmodel.h"
 #define RANGE(v) __CPROVER_assert(z_inrange(v), "z model range: value stays below 2^100 in magnitude")
 
-#ifdef ZM_PRECISE
+#if defined(ZM_SMALL) && !defined(__CPROVER_uninterpreted_zmul)
+/* bounded mode: see zsmall.h */
+i128 ZM_mul(i128 a, i128 b){ __CPROVER_assert(zs_fits(a) && zs_fits(b), "z model range: small-precise operands fit ZM_SMALL-2 bits"); return zs_mul_pure(a, b); }
+i128 ZM_div(i128 a, i128 b){ __CPROVER_assert(zs_fits(a) && zs_fits(b) && b != 0, "z model range: small-precise operands fit ZM_SMALL-2 bits"); __CPROVER_assume(b != 0); return zs_div_pure(a, b); }
+i128 ZM_rem(i128 a, i128 b){ __CPROVER_assert(zs_fits(a) && zs_fits(b) && b != 0, "z model range: small-precise operands fit ZM_SMALL-2 bits"); __CPROVER_assume(b != 0); return zs_rem_pure(a, b); }
+#elif defined(ZM_PRECISE)
 i128 ZM_mul(i128 a, i128 b){ return a * b; }
 i128 ZM_div(i128 a, i128 b){ return a / b; }
 i128 ZM_rem(i128 a, i128 b){ return a % b; }
-i128 ZM_mul_pure(i128 a, i128 b){ return a * b; }
-i128 ZM_div_pure(i128 a, i128 b){ return a / b; }
-i128 ZM_rem_pure(i128 a, i128 b){ return a % b; }
 #else
-i128 __CPROVER_uninterpreted_zmul(i128, i128);
-i128 __CPROVER_uninterpreted_zdiv(i128, i128);
-i128 __CPROVER_uninterpreted_zrem(i128, i128);
+/* Every call returns the uninterpreted term UF(a,b) itself (so that specifications can name the same term with the
+ * macros ZM_*_pure of zmodel.h without sharing a function with the code: dfcc mishandles such sharing) and ASSUMES
+ * the unit / zero / sign / magnitude rules of the mathematical operation at this argument pair; every rule is a
+ * schema discharged over the integers in lemmas/zm_sign_rules.smt2. */
 static inline i128 zabs(i128 a){ return a < 0 ? -a : a; }
-static inline bool zm_mul_uf(i128 a, i128 b){ return !(a == 0 || b == 0 || a == 1 || b == 1 || a == -1 || b == -1); }
-i128 ZM_mul_pure(i128 a, i128 b){
-  if (a == 0 || b == 0) return 0;
-  if (a == 1) return b;  if (b == 1) return a;
-  if (a == -1) return -b; if (b == -1) return -a;
-  return __CPROVER_uninterpreted_zmul(a, b); }
 i128 ZM_mul(i128 a, i128 b){
-  if (!zm_mul_uf(a, b)) return ZM_mul_pure(a, b);
+  bool special = (a == 0 || b == 0 || a == 1 || b == 1 || a == -1 || b == -1);
   /* the result-range assumption below is sound only for operands below 2^50: that is an obligation */
-  __CPROVER_assert(zabs(a) < ((i128)1 << 50) && zabs(b) < ((i128)1 << 50), "z model range: multiplication operands stay below 2^50 in magnitude");
+  __CPROVER_assert(special || (zabs(a) < ((i128)1 << 50) && zabs(b) < ((i128)1 << 50)), "z model range: multiplication operands stay below 2^50 in magnitude");
   i128 r = __CPROVER_uninterpreted_zmul(a, b);
-  __CPROVER_assume(z_inrange(r));
+  __CPROVER_assume((a == 0 || b == 0) ? r == 0 : a == 1 ? r == b : b == 1 ? r == a : a == -1 ? r == -b : b == -1 ? r == -a
+                   : (z_inrange(r) && r != 0 && ((r > 0) == ((a > 0) == (b > 0)))));
 #ifdef ZM_MUL_FULL_AXIOMS
   __CPROVER_assume(r == __CPROVER_uninterpreted_zmul(b, a));
-  __CPROVER_assume(zabs(r) >= zabs(a) && zabs(r) >= zabs(b));
+  __CPROVER_assume(special || (zabs(r) >= zabs(a) && zabs(r) >= zabs(b)));
 #endif
-  __CPROVER_assume((r > 0) == ((a > 0) == (b > 0)) && r != 0);
   return r;
 }
 /* truncating division, b != 0 */
-static inline bool zm_div_uf(i128 a, i128 b){ return !(a == 0 || b == 1 || b == -1 || zabs(a) < zabs(b) || a == b || a == -b); }
-i128 ZM_div_pure(i128 a, i128 b){
-  if (a == 0) return 0;
-  if (b == 1) return a; if (b == -1) return -a;
-  if (zabs(a) < zabs(b)) return 0;
-  if (a == b) return 1; if (a == -b) return -1;
-  return __CPROVER_uninterpreted_zdiv(a, b); }
 i128 ZM_div(i128 a, i128 b){
-  if (!zm_div_uf(a, b)) return ZM_div_pure(a, b);
   __CPROVER_assert(z_inrange(a) && z_inrange(b), "z model range: division operands stay below 2^100 in magnitude");
   i128 r = __CPROVER_uninterpreted_zdiv(a, b);
-  __CPROVER_assume(z_inrange(r));   /* |a/b| <= |a| */
-  __CPROVER_assume(r != 0 && ((r > 0) == ((a > 0) == (b > 0))) && zabs(r) <= (zabs(a) >> 1) + (zabs(b) == 1));
+  __CPROVER_assume(a == 0 ? r == 0 : b == 1 ? r == a : b == -1 ? r == -a : zabs(a) < zabs(b) ? r == 0 : a == b ? r == 1 : a == -b ? r == -1
+                   : (z_inrange(r) && r != 0 && ((r > 0) == ((a > 0) == (b > 0))) && zabs(r) <= (zabs(a) >> 1) + (zabs(b) == 1)));
   return r;
 }
 /* remainder of truncating division: sign of the dividend, |r| < |b| */
-static inline bool zm_rem_uf(i128 a, i128 b){ return !(a == 0 || b == 1 || b == -1 || zabs(a) < zabs(b) || a == b || a == -b); }
-i128 ZM_rem_pure(i128 a, i128 b){
-  if (a == 0 || b == 1 || b == -1) return 0;
-  if (zabs(a) < zabs(b)) return a;
-  if (a == b || a == -b) return 0;
-  return __CPROVER_uninterpreted_zrem(a, b); }
 i128 ZM_rem(i128 a, i128 b){
-  if (!zm_rem_uf(a, b)) return ZM_rem_pure(a, b);
   __CPROVER_assert(z_inrange(a) && z_inrange(b), "z model range: division operands stay below 2^100 in magnitude");
   i128 r = __CPROVER_uninterpreted_zrem(a, b);
-  __CPROVER_assume(z_inrange(r));   /* |a%b| <= |a| */
-  __CPROVER_assume(zabs(r) < zabs(b) && (r == 0 || ((r > 0) == (a > 0))));
+  __CPROVER_assume((a == 0 || b == 1 || b == -1) ? r == 0 : zabs(a) < zabs(b) ? r == a : (a == b || a == -b) ? r == 0
+                   : (z_inrange(r) && zabs(r) < zabs(b) && (r == 0 || ((r > 0) == (a > 0)))));
   return r;
 }
 #endif
